@@ -1067,7 +1067,10 @@ func (c *cluster) handleNodeAction(nodeAction nodeAction) error {
 	c.logger.Printf("received jobResult: %s", jobResult)
 	switch jobResult {
 	case resizeJobStateDone:
-		if err := c.completeCurrentJob(resizeJobStateDone); err != nil {
+		if err := c.completeCurrentJob(resizeJobStateDone); err == ErrResizeNotRunning {
+			// The job was aborted before it could be completed.
+			return nil
+		} else if err != nil {
 			return errors.Wrap(err, "completing finished job")
 		}
 		// Add/remove uri to/from the cluster.
@@ -1081,7 +1084,8 @@ func (c *cluster) handleNodeAction(nodeAction nodeAction) error {
 			return c.addNode(nodeAction.node)
 		}
 	case resizeJobStateAborted:
-		if err := c.completeCurrentJob(resizeJobStateAborted); err != nil {
+		// The job may already have been completed by the abort request itself.
+		if err := c.completeCurrentJob(resizeJobStateAborted); err != nil && err != ErrResizeNotRunning {
 			return errors.Wrap(err, "completing aborted job")
 		}
 	}
@@ -1264,6 +1268,8 @@ func (c *cluster) unprotectedCompleteCurrentJob(state string) error {
 		return ErrResizeNotRunning
 	}
 	c.currentJob.setState(state)
+	// Wake handleNodeAction if it is still waiting for this job (abort request).
+	c.currentJob.deliverResult(state)
 	c.currentJob = nil
 	return nil
 }
@@ -1388,10 +1394,13 @@ func (c *cluster) followResizeInstruction(instr *ResizeInstruction) error {
 func (c *cluster) markResizeInstructionComplete(complete *ResizeInstructionComplete) error {
 
 	j := c.job(complete.JobID)
+	if j == nil {
+		return fmt.Errorf("resize job %d does not exist", complete.JobID)
+	}
 
 	// Abort the job if an error exists in the complete object.
 	if complete.Error != "" {
-		j.result <- resizeJobStateAborted
+		j.deliverResult(resizeJobStateAborted)
 		return errors.New(complete.Error)
 	}
 
@@ -1406,7 +1415,7 @@ func (c *cluster) markResizeInstructionComplete(complete *ResizeInstructionCompl
 	j.IDs[complete.Node.ID] = true
 
 	if !j.nodesArePending() {
-		j.result <- resizeJobStateDone
+		j.deliverResult(resizeJobStateDone)
 	}
 
 	return nil
@@ -1427,6 +1436,8 @@ type resizeJob struct {
 
 	action string
 	result chan string
+	// resultOnce guards result so that the outcome is delivered exactly once.
+	resultOnce sync.Once
 
 	mu    sync.RWMutex
 	state string
@@ -1462,9 +1473,17 @@ func newResizeJob(existingNodes []*Node, node *Node, action string) *resizeJob {
 		ID:     rand.Int63(),
 		IDs:    ids,
 		action: action,
-		result: make(chan string),
+		result: make(chan string, 1),
 		Logger: logger.NopLogger,
 	}
+}
+
+// deliverResult reports the outcome of the job to the goroutine waiting in
+// handleNodeAction. Only the first call has an effect, and since result is
+// buffered it never blocks: duplicate, late or concurrent completion messages
+// and abort requests can therefore never stall their handlers.
+func (j *resizeJob) deliverResult(state string) {
+	j.resultOnce.Do(func() { j.result <- state })
 }
 
 func (j *resizeJob) setState(state string) {
@@ -1484,14 +1503,14 @@ func (j *resizeJob) run() error {
 	// Job can be considered done in the case where it doesn't require any action.
 	if !j.nodesArePending() {
 		j.Logger.Printf("resizeJob contains no pending tasks; mark as done")
-		j.result <- resizeJobStateDone
+		j.deliverResult(resizeJobStateDone)
 		return nil
 	}
 
 	j.Logger.Printf("distribute tasks for resizeJob")
 	err := j.distributeResizeInstructions()
 	if err != nil {
-		j.result <- resizeJobStateAborted
+		j.deliverResult(resizeJobStateAborted)
 		return errors.Wrap(err, "distributing instructions")
 	}
 	return nil
